@@ -396,6 +396,7 @@ def gen_history_case(r, maxn):
     hist, inexact = history_ops(r, toks, info, n, reg, steps=r.range(2, 4), free_ard=free_ard)
     ops += hist
     ops.append("unitvar " + " ".join(map(str, rand_partition(r, n))))
+    if r.chance(1, 3): ops.append(gramt_op(r))
     a = r.below(n); b = r.range(a + 1, min(n, a + 3)); c = r.below(n); d = r.range(c + 1, min(n, c + 3))
     ops.append(f"dcheck {a} {b} {c} {d} " + " ".join(str(r.range(-2, 2)) for _ in range((b - a) * (d - c))))
     if inexact: info = dict(info, exact=False)
@@ -448,6 +449,7 @@ def gen_config_case(r, maxn, avoid_prod_adaptive=False):
     ops.append(("setparams " + " ".join(dy(v) for v in new_params(r, slots, free_ard=True))).strip())
     ops += observe_ops(r, n, reg)
     derivs()
+    if r.chance(1, 3): ops.append(gramt_op(r))
     ops += kexp_ops(r, n)
     info = dict(info, n=n, dim=dim, parts=0, exact_case=False, oracle_only=True,
                 kinds=info["kinds"] | {"config"} | ({"adaptive"} if adaptive else set()))
@@ -511,6 +513,12 @@ def gen_case(ctx, r, maxn, all_partitions=False, ps_reuse_ok=False):
     if inexact: info = dict(info, exact=False)
     ops.append("unitvar " + " ".join(map(str, rand_partition(r, n))))
     ops.append("gderiv " + " ".join(map(str, rand_partition(r, n))))
+    # kernel objects are shared by the OpenMP threads of the blockwise Gram assembly: thread-count sweep for composite kernels
+    if info["depth"] >= 1 and r.chance(1, 2):
+        ops.append(gramt_op(r))
+        if psops and r.chance(1, 2): ops.append("ps " + gramt_op(r).replace("64", "16").replace("40", "12").replace("24", "8"))
+    a = r.below(n); b = r.range(a + 1, n); c = r.below(n); d = r.range(c + 1, n); a2 = r.below(n); b2 = r.range(a2 + 1, n); c2 = r.below(n); d2 = r.range(c2 + 1, n)
+    ops.append(f"reuse {a} {b} {c} {d} {a2} {b2} {c2} {d2} " + " ".join(str(r.range(-2, 2)) for _ in range((b2 - a2) * (d2 - c2))))
     # numerical derivative oracle on the real code (finite differences); last, because it resets parameters
     a = r.below(n); b = r.range(a + 1, min(n, a + 3)); c = r.below(n); d = r.range(c + 1, min(n, c + 3))
     ops.append(f"dcheck {a} {b} {c} {d} " + " ".join(str(r.range(-2, 2)) for _ in range((b - a) * (d - c))))
@@ -705,6 +713,117 @@ def gen_deriv2_case(r, maxn, pointset_ok=False):
     return ops, dict(exact=True, exact_case=True, kinds=kinds, depth=1, n=n, dim=dim, parts=0, M=Fraction(1), f=0)
 
 
+
+# ----------------------------------------------------------------------------- ModelKernel over models WITH state
+NETW = [Fraction(-1), Fraction(-1, 2), Fraction(0), Fraction(1, 2), Fraction(1), Fraction(3, 4), Fraction(-1, 4), Fraction(3, 2), Fraction(-2)]
+
+
+def gen_net(r, nin, exact):
+    """a ConcatenatedModel chain (specs as in harness/c04.cpp).  exact: linear / rectifier layers with weights in {-1,0,1},
+    at most two dense layers of width <= 2 (all values stay small integers); otherwise tanh / logistic / linear dense
+    layers with dyadic weights, element-wise neuron layers, optionally a softmax / normalizer row layer.
+    Returns (specs, params of ALL dense layers, parameter slots of the OPTIMISED layers, number of layers)"""
+    specs, params, slots = [], [], []
+    n = nin
+    ndense = r.choice([1, 2, 2, 2]) if exact else r.choice([1, 2, 2, 2, 3])
+    last_act = None
+    for li in range(ndense):
+        nout = r.choice([1, 2, 2]) if exact else r.choice([1, 2, 2, 3, 4])
+        act = r.choice(["linear", "rectifier", "rectifier"]) if exact else r.choice(["tanh", "tanh", "logistic", "linear"])
+        if li == ndense - 1 and r.chance(1, 2): act = "linear"          # the usual network: non-linear hidden layers, linear output
+        hb = not r.chance(1, 4); opt = not r.chance(1, 5)                  # frozen layers: not part of the parameter vector
+        np_ = nout * n + (nout if hb else 0)
+        vals = [Fraction(r.range(-1, 1)) for _ in range(np_)] if exact else [r.choice(NETW) for _ in range(np_)]
+        specs.append(f"d:{act}:{int(hb)}:{nout}:{int(opt)}"); params += vals
+        if opt: slots += ["int" if exact else "logw"] * np_
+        n = nout; last_act = act
+        if r.chance(1, 5):
+            a2 = r.choice(["rectifier", "linear"]) if exact else r.choice(["tanh", "logistic"])
+            specs.append(f"n:{a2}:{r.below(2)}"); last_act = a2
+    if not exact and r.chance(1, 4):
+        if last_act == "logistic" and r.chance(1, 2): specs.append(f"r:normalizer:{r.below(2)}")   # sums of logistic outputs are > 0
+        else: specs.append(f"r:softmax:{r.below(2)}")
+    return specs, params, slots, len(specs)
+
+
+def gen_mnet_case(r, maxn, exact):
+    """ModelKernel over a ConcatenatedModel chain: the model's State holds the hidden responses of ONE batch, the kernel keeps
+    one State per argument.  Observed: single / block / stateful block / feature distance / Gram over partitions, the parameter
+    derivative on blocks with x1 != x2 of DIFFERENT sizes, through the Gram helper, after setParameterVector, with a State
+    object that served other batches before, into re-used outputs; finite differences for smooth chains.
+    exact: compared with the Lean model (Rat + Float); otherwise oracle-only (finite differences 2e-5)."""
+    dim = r.choice([1, 2, 2, 3]); n = r.range(2, min(maxn, 6))
+    specs, params, nslots, nl = gen_net(r, dim, exact)
+    # dimension of the base kernel's inputs = output dimension of the chain
+    odim = dim
+    for sp in specs:
+        f = sp.split(":")
+        if f[0] == "d": odim = int(f[3])
+    if exact:
+        g = DGen(r)
+        toks, ps, psa = g.gen(odim, r.choice([0, 1, 1]), False, False)
+        kinds = set(g.kinds); kslots = ps
+        pts = [[r.range(-2, 2) for _ in range(dim)] for _ in range(n)]
+    else:
+        kg = KGen(r); kg.no_norm = 1
+        for _ in range(40):
+            toks, info = kg.gen(odim, r.choice([0, 1, 1, 2]))
+            if "prod" not in toks and "model" not in toks: break
+        else:
+            toks, info = ["gauss", "1:-1"], dict(kinds={"gauss"}, ps=["gamma"])
+        kinds = set(info["kinds"]); kslots = info["ps"]
+        pts = gen_points(r, n, dim, False)
+    ops = ["kern " + " ".join(toks), f"pts {n} {dim} " + " ".join(str(v) for p in pts for v in p),
+           f"mnet {nl} " + " ".join(specs) + " " + " ".join(dy(v) for v in params), "mn flags"]
+
+    def two_blocks(maxlen):
+        while True:
+            a = r.below(n); b = r.range(a + 1, min(n, a + maxlen)); c = r.below(n); d = r.range(c + 1, min(n, c + maxlen))
+            if (a, b) != (c, d): return a, b, c, d
+
+    def coeffs(k):
+        return " ".join(dy(r.choice([Fraction(v) for v in (-2, -1, 1, 2, 3)] + [Fraction(1, 2)])) for _ in range(k))
+
+    def observe():
+        i = r.below(n)
+        ops.extend([f"mn single {i} {i}", f"mn single {r.below(n)} {r.below(n)}", f"mn fdist {r.below(n)} {r.below(n)}"])
+        a, b, c, d = two_blocks(n)
+        ops.extend([f"mn block {a} {b} {c} {d}", f"mn sblock {a} {b} {c} {d}"])
+        ops.append(f"mn gram {dy(r.choice([Fraction(0), Fraction(1, 2)]))} " + " ".join(map(str, rand_partition(r, n))))
+
+    def derivs():
+        for _ in range(2):
+            a, b, c, d = two_blocks(4)
+            ops.append(f"mn pderiv {a} {b} {c} {d} {coeffs((b - a) * (d - c))}")
+        ops.append("mn gderivx " + " ".join(map(str, rand_partition(r, n))))
+        ops.append("mn gderiv " + " ".join(map(str, rand_partition(r, n))))
+        a, b, c, d = two_blocks(4); a2, b2, c2, d2 = two_blocks(4)
+        ops.append(f"mn reuse {a} {b} {c} {d} {a2} {b2} {c2} {d2} {coeffs((b2 - a2) * (d2 - c2))}")
+        a, b, c, d = two_blocks(3)
+        ops.append(f"mn stale {a} {b} {c} {d} {coeffs((b - a) * (d - c))}")
+        if not exact:
+            for _ in range(2):
+                a, b, c, d = two_blocks(3)
+                ops.append(f"mn dcheck {a} {b} {c} {d} " + " ".join(str(r.choice([-2, -1, 1, 2])) for _ in range((b - a) * (d - c))))
+    observe(); derivs()
+    if r.chance(1, 2):
+        if exact:
+            vals = [Fraction(0) if q == "logw" else (r.choice(OFFSETS) if q == "off" else Fraction(r.range(-1, 1))) for q in kslots + nslots]
+            nsum_ok = all(is_pow2(Fraction(int(t))) for t, prev in zip(toks[1:], toks[:-1]) if prev in ("wsum", "subk"))
+        else:
+            vals = new_params(r, kslots + nslots, free_ard=True); nsum_ok = True
+        if nsum_ok:
+            ops.append(("mn setparams " + " ".join(dy(v) for v in vals)).strip()); ops.append("mn flags"); observe(); derivs()
+    if r.chance(1, 2): ops.append(f"mn gramt {r.choice([24, 40])} {r.choice([2, 3, 5])}")
+    kinds |= {"mnet"} | ({"mnet-exact"} if exact else {"mnet-smooth"})
+    return ops, dict(exact=exact, exact_case=exact, kinds=kinds, depth=2, n=n, dim=dim, parts=0, M=Fraction(1), f=0, oracle_only=not exact)
+
+
+def gramt_op(r):
+    """thread-count sweep of the blockwise Gram assembly (oracle only): N points in batches of alternating sizes bs / bs-1"""
+    return f"gramt {r.choice([24, 40, 64])} {r.choice([2, 3, 5, 8])}"
+
+
 def kexp_ops(r, n, exactvals=True):
     """a KernelExpansion over the first m points (basis batched), evaluated on blocks of the points"""
     m = r.range(1, n); nout = r.choice([1, 1, 2, 3]); off = r.below(2)
@@ -748,6 +867,7 @@ def gen_task_case(r, maxn, reconf_ok):
         ops.append(f"mt 1 {a} {b} {c} {d}")
         ops.append(f"mt 2 {dy(r.choice([Fraction(0), Fraction(1, 2)]))} " + " ".join(map(str, rand_partition(r, n))))
     observe()
+    ops.append(f"mt 3 {r.choice([24, 40, 64])} {r.choice([2, 3, 5, 8])}")     # MultiTaskKernel IS a ProductKernel: thread-count sweep
     if reconf_ok:
         for _ in range(r.range(1, 2)):
             if r.chance(1, 2): ops.append(f"tsetgamma {dy(r.choice(GAMMAS))}")
@@ -777,6 +897,7 @@ def gen_mkl_case(r, maxn):
     observe()
     if r.chance(1, 2):
         ops.append(f"mk setparams {dy(r.choice(LOGS))}"); observe()
+    if r.chance(1, 2): ops.append("mk " + gramt_op(r))
     a = r.below(n); b = r.range(a + 1, min(n, a + 3)); c = r.below(n); d = r.range(c + 1, min(n, c + 3))
     ops.append(f"mk dcheck {a} {b} {c} {d} " + " ".join(str(r.range(-2, 2)) for _ in range((b - a) * (d - c))))
     ex = pw == 0 and i1["exact"] and i2["exact"] and "setparams" not in " ".join(ops)
@@ -813,7 +934,9 @@ def kinds_of(ops):
     toks = ops[0].split() if ops else []
     if toks and toks[0] == "mkl": toks = ["kern", "mkl"] + toks[3:]
     names = {"mkl", "lin", "poly", "mono", "gauss", "ard", "norm", "scaled", "wsum", "wsump", "prod", "sub", "disc", "model", "subk", "polyu", "gaussu"}
-    return sorted({t for t in toks[1:] if t in names})
+    ks = {t for t in toks[1:] if t in names}
+    if any(o.startswith("mnet ") for o in ops): ks.add("mnet")
+    return sorted(ks)
 
 
 def classify(ops, res):
@@ -831,7 +954,7 @@ def classify(ops, res):
     fop = None
     for o, l in zip(ops, res.impl):
         if "!oracle" in l:
-            w = o.split(); fop = w[1] if w[0] in ("ps", "mk") and len(w) > 1 else w[0]
+            w = o.split(); fop = w[1] if w[0] in ("ps", "mk", "mn") and len(w) > 1 else w[0]
             break
     reconfigured = any(o in ("setfactor", "setparams") for o in opk)
     if fop is not None:
@@ -886,7 +1009,7 @@ def load_corpus():
     return out
 
 
-SPARSE_UNSUPPORTED = {"ard", "norm", "sub", "model", "subk"}     # do not compile for CompressedRealVector (see harness/c05.cpp)
+SPARSE_UNSUPPORTED = {"ard", "norm", "sub", "model", "subk", "mnet"}     # do not compile for CompressedRealVector (see harness/c05.cpp)
 
 
 def harness_name():
@@ -961,6 +1084,13 @@ def run(ctx):
         cases.append(gen_task_case(r, maxn, reconf_ok=not tk_stale))
     for _ in range(nmkl):
         cases.append(gen_mkl_case(r, maxn))
+    # ModelKernel over ConcatenatedModel chains (models WITH state): exact chains against the Lean model, smooth chains
+    # (tanh / logistic / softmax / normalizer) against finite differences
+    nnet_x, nnet_s = (150, 200) if ctx.quick else (800, 1000)
+    for _ in range(nnet_x):
+        cases.append(gen_mnet_case(r, maxn, True))
+    for _ in range(nnet_s):
+        cases.append(gen_mnet_case(r, maxn, False))
     if not ctx.quick:
         # partition independence: ALL ordered batch partitions of n points (n <= 12)
         for n in (6, 8, 10, 12):
